@@ -1232,6 +1232,13 @@ impl<'a, 'ast> Visit<'ast> for Ed<'a> {
             }
         }
         if let Some(h) = header {
+            // E25: a "header" of the form `=> expr` REPLACES the whole closure literal by `expr` (a declared
+            // stand-in value for a closure that is under contract as a hoisted function of its own)
+            if let Some(repl) = h.trim().strip_prefix("=>") {
+                let end = c.span().byte_range().end;
+                self.push(start, end, repl.trim().to_string(), "E25-closure-replaced-by-declared-value", true);
+                return;
+            }
             // `$k` in a spliced header stands for the name the source gives to parameter k, so that
             // renaming a closure parameter does not invalidate the header
             let mut h = h.trim().to_string();
